@@ -864,6 +864,13 @@ decLoop:
 	for _, dec := range decs {
 		tempProperty := strings.ToLower(dec.Property)
 		tempValue := removeUnicode(strings.ToLower(dec.Value))
+		if tempValue == "" && dec.Value != "" {
+			// removeUnicode signals an undecodable escape (a code point that is
+			// out of range or a surrogate half) with an empty result: the
+			// declaration must be dropped, not offered to handlers as an
+			// empty value, which some of them accept
+			continue
+		}
 		for _, i := range prefixes {
 			tempProperty = strings.TrimPrefix(tempProperty, i)
 		}
